@@ -15,7 +15,7 @@ RULE = (
     "with offsets, prefixes, and invalid combinations; (c) accessible markets versus the union of listed groups; "
     "(d) JsonRandom on every distribution form incl. malformed ones, support and mean; (e) find_class on every "
     "built-in name, registered user classes, clashes and unknown names; (f) Session.setup with legacy versus "
-    "current keys. Case = one generated input; distinct = hash of the input; non-trivial = inheritance depth >=1 "
+    "current keys, and session lists of 2-4 sessions set up by the runner in which the same legacy key returns in a later session. Case = one generated input; distinct = hash of the input; non-trivial = inheritance depth >=1 "
     "or error case / group with >=2 entities / non-constant distribution / user class / legacy key."
 )
 ASSUMPTIONS = [
@@ -29,14 +29,14 @@ REQUIRED = {
               "groups/invalid_refused": 30, "groups/count_inherited_from_listed_group": 20, "access/checked_agents": 500, "random/values": 100000,
               "random/malformed_refused": 200, "class/builtin_resolved": 200, "class/user_resolved": 30,
               "class/clash_refused": 30, "class/unknown_refused": 30, "legacy/pairs_compared": 100,
-              "legacy/both_spellings_refused": 20},
+              "legacy/both_spellings_refused": 20, "legacy/same_legacy_key_in_two_sessions_of_one_list": 30},
     "thorough": {"extends/ok": 21000, "extends/cycle_refused": 2400, "extends/missing_parent_refused": 2400,
                  "extends/depth>=3": 4500, "extends/excluded_key_in_parent": 4500, "groups/range_len_1": 500,
                  "groups/range_len_2": 500, "groups/range_len>=3": 3000, "groups/count": 3000, "groups/count_0": 150,
                  "groups/invalid_refused": 900, "groups/count_inherited_from_listed_group": 600, "access/checked_agents": 15000, "random/values": 3000000,
                  "random/malformed_refused": 6000, "class/builtin_resolved": 6000, "class/user_resolved": 900,
                  "class/clash_refused": 900, "class/unknown_refused": 900, "legacy/pairs_compared": 3000,
-                 "legacy/both_spellings_refused": 600},
+                 "legacy/both_spellings_refused": 600, "legacy/same_legacy_key_in_two_sessions_of_one_list": 900},
 }
 KINDS = ["extends", "extends", "extends", "extends", "groups", "groups", "random", "class", "legacy", "extends"]
 
@@ -230,8 +230,15 @@ def gen_legacy(rng):
     if rng.random() < 0.5:
         base["maxNormalOrders"] = rng.randint(0, 9)
     which = rng.choice(["maxHifreqOrders", "hifreqSubmitRate", "both-legacy"])
+    # ... and a whole session list handed to the runner: every session chooses, per parameter, the legacy spelling, the
+    # current one or none (so that the same legacy key comes back in a later session with another value)
+    sessions = []
+    for i in range(rng.choice([2, 2, 3, 4])):
+        sessions.append({"cap": rng.choice([None, "legacy", "legacy", "current"]), "cap_v": rng.randint(0, 7),
+                         "rate": rng.choice([None, "legacy", "legacy", "current"]), "rate_v": rng.choice([0.0, 0.25, 0.5, 0.75, 1.0]),
+                         "steps": rng.randint(0, 5)})
     return {"kind": "legacy", "base": base, "which": which, "cap": rng.randint(0, 7), "rate": rng.choice([0.0, 0.25, 0.5, 1.0]),
-            "both": rng.random() < 0.25}
+            "both": rng.random() < 0.25, "sessions": sessions}
 
 
 def gen_case(rng, tier, idx):
@@ -683,6 +690,57 @@ def run_legacy(case, res):
         else:
             res.count("legacy/both_spellings_accepted(no claim)")
     res.seen(canon_hash([base, case["which"], case["cap"], case["rate"]]), True)
+    if case.get("sessions"):
+        legacy_session_list(case, res)
+
+
+def legacy_session_list(case, res):
+    """the same session list with the chosen spellings and with the current spellings only, set up by the runner: every
+    session object holds the configured value (or the documented default) of both parameters, in both runs."""
+    import contextlib
+    import io
+
+    from pams.runners.sequential import SequentialRunner
+
+    def build(spelling):
+        ss = []
+        for i, d in enumerate(case["sessions"]):
+            s_ = {"sessionName": i, "iterationSteps": d["steps"], "withOrderPlacement": True, "withOrderExecution": True,
+                  "withPrint": False}
+            if d["cap"] is not None:
+                s_["maxHifreqOrders" if (d["cap"] == "legacy" and spelling == "as-chosen") else "maxHighFrequencyOrders"] = d["cap_v"]
+            if d["rate"] is not None:
+                s_["hifreqSubmitRate" if (d["rate"] == "legacy" and spelling == "as-chosen") else "highFrequencySubmitRate"] = d["rate_v"]
+            ss.append(s_)
+        return {"simulation": {"markets": ["M"], "agents": ["G"], "sessions": ss},
+                "M": {"class": "Market", "tickSize": 1.0, "marketPrice": 100.0},
+                "G": {"class": "FCNAgent", "numAgents": 2, "markets": ["M"], "cashAmount": 100, "assetVolume": 1,
+                      "fundamentalWeight": 1.0, "chartWeight": 0.0, "noiseWeight": 0.0, "noiseScale": 0.001,
+                      "timeWindowSize": 10, "orderMargin": 0.01}}
+
+    got = {}
+    for spelling in ("as-chosen", "current-only"):
+        cfg = build(spelling)
+        r = SequentialRunner(settings=copy.deepcopy(cfg), prng=random.Random(7))
+        try:
+            with warnings.catch_warnings():
+                warnings.simplefilter("ignore")
+                with contextlib.redirect_stdout(io.StringIO()):
+                    r._setup()
+        except Exception as e:  # noqa
+            res.violation("legacy", "legacy-or-current-key-refused", {"sessions": cfg["simulation"]["sessions"], "exc": repr(e)})
+            return
+        got[spelling] = [(x.max_high_frequency_orders, x.high_frequency_submission_rate) for x in r.simulator.sessions]
+    res.count("legacy/session_lists_compared")
+    if sum(1 for d in case["sessions"] if d["cap"] == "legacy") >= 2 or sum(1 for d in case["sessions"] if d["rate"] == "legacy") >= 2:
+        res.count("legacy/same_legacy_key_in_two_sessions_of_one_list")
+    exp = [(d["cap_v"] if d["cap"] is not None else 1, d["rate_v"] if d["rate"] is not None else 1.0) for d in case["sessions"]]
+    for spelling, g in got.items():
+        if g != exp:
+            res.violation("legacy", "legacy-key-sets-different-session-state" if spelling == "as-chosen" else
+                          "current-key-does-not-set-its-parameter",
+                          {"sessions": build(spelling)["simulation"]["sessions"], "per_session(cap,rate)": g, "expected": exp})
+            return
 
 
 def run_case(case, res):
